@@ -47,7 +47,8 @@ struct Srv : public HttpServer
 		Seen s;
 		s.method = *req.method();
 		s.path = std::string(*req.path(), req.path().length());
-		if (strstr(s.path.c_str(), "..")) { g_dotdot++; std::lock_guard<std::mutex> l(g_mu); g_dotdotPath = s.path; }
+		if (s.path.find("..") != std::string::npos)   // byte-level: the path is a counted string and may hold a zero byte (from %00)
+		 { g_dotdot++; std::lock_guard<std::mutex> l(g_mu); g_dotdotPath = s.path; }
 		s.body = std::string((const char*)req.body().data(), req.body().length());
 		s.querystring = *req.querystring();
 		// a handler looking up an optional parameter that was not sent gets "" and must not change what query() reports
